@@ -67,7 +67,7 @@ func OpenKV(ctx context.Context, s3opts S3Options, subdir string) (*KV, error) {
 		UnmarshalUsesRegisteredTypes: true,
 	}
 	if s3opts.NodeCacheEntries > 0 {
-		cfg.NodeCache = mast.NewNodeCache(s3opts.NodeCacheEntries)
+		cfg.NodeCache = verifNodeCache(mast.NewNodeCache(s3opts.NodeCacheEntries))
 	}
 	if s3opts.EntriesPerNode > 0 {
 		cfg.BranchFactor = uint(s3opts.EntriesPerNode)
